@@ -215,7 +215,8 @@ class TextRoleHandler:
         options: Dict[str, object] = {},
         content: List[object] = [],
     ) -> Tuple[List[tinydocutils.nodes.Node], List[tinydocutils.nodes.Node]]:
-        node = role(self.domain, typ, lineno, None)
+        # A role written under its qualified name (:mongodb:required:) is the same role
+        node = role(self.domain, util.split_domain(typ)[1], lineno, None)
         node.append(tinydocutils.nodes.Text(text))
         return [node], []
 
@@ -237,11 +238,13 @@ class ExplicitTitleRoleHandler:
         content: List[object] = [],
     ) -> Tuple[List[tinydocutils.nodes.Node], List[tinydocutils.nodes.Node]]:
         target, label = parse_explicit_title(text)
+        # A role written under its qualified name (:std:doc:) is the same role
+        name = util.split_domain(typ)[1]
         if label is not None:
-            node = role(self.domain, typ, lineno, target)
+            node = role(self.domain, name, lineno, target)
             node.append(tinydocutils.nodes.Text(label))
         else:
-            node = role(self.domain, typ, lineno, target)
+            node = role(self.domain, name, lineno, target)
 
         return [node], []
 
